@@ -669,6 +669,8 @@ main (int argc, char **argv)
 		return cmd_grid (argc - 2, argv + 2) ;
 	if (!strcmp (argv [1], "c03consts"))
 		return cmd_c03consts () ;
+	if (!strcmp (argv [1], "ieee"))
+		return cmd_ieee (argc - 2, argv + 2) ;
 	fprintf (stderr, "sfh: unknown subcommand %s\n", argv [1]) ;
 	return 2 ;
 }
